@@ -7,6 +7,7 @@ import (
 
 	"verif/harness/hist"
 	"verif/harness/live"
+	"verif/harness/world"
 )
 
 // avoidFor returns the steering predicate of a property: it names the guard that excludes
@@ -67,6 +68,12 @@ func avoidFor(prop string) func(hist.Step, *hist.MRunner) string {
 			}
 			if guard("F-32") && parentOfPath(s.Path2) != "/" {
 				return "F-32"
+			}
+			// F-35 at replay time: a link row is keyed by its target's name, so replaying an
+			// earlier delete/move of that name into an index that already holds the link
+			// applies the record to the link as well (only C07 replays into a populated index)
+			if prop == "C07" && guard("F-35") && mr.WasAddressedAbove(s.Path) {
+				return "F-35"
 			}
 		} else {
 			for _, p := range append([]string{s.Path, s.Path2}, memberPaths(s)...) {
@@ -183,4 +190,41 @@ func memberPaths(s hist.Step) []string {
 		out = append(out, m.Path)
 	}
 	return out
+}
+
+// f33Limit is the largest content that finding F-33 (parallelbzip2 + pgp cannot read back
+// more than one bzip2 block) leaves readable.
+const f33Limit = 90000
+
+// f33Avoid wraps an avoid function: while finding F-33 is open and the configuration is the
+// one it concerns, no step may grow a file beyond f33Limit (single contents are capped by
+// Gen.MaxSize; this caps what several writes, a write behind a seek or a Truncate add up to).
+func f33Avoid(cfg world.Cfg, inner func(hist.Step, *hist.MRunner) string) func(hist.Step, *hist.MRunner) string {
+	if !(guard("F-33") && cfg.Compression == "parallelbzip2" && cfg.Encryption == "pgp") {
+		return inner
+	}
+	return func(s hist.Step, mr *hist.MRunner) string {
+		if s.Slot >= 0 && s.Slot < hist.NSlots && mr.Slots[s.Slot] != nil {
+			h := mr.Slots[s.Slot]
+			end := int64(-1)
+			switch s.Op {
+			case "write", "writestring":
+				end = h.Pos + int64(s.Size)
+				if h.Append {
+					end = h.Size() + int64(s.Size)
+				}
+			case "writeat":
+				end = s.Off + int64(s.Size)
+			case "truncate":
+				end = s.Off
+			}
+			if end > f33Limit {
+				return "F-33"
+			}
+		}
+		if inner == nil {
+			return ""
+		}
+		return inner(s, mr)
+	}
 }
